@@ -53,12 +53,20 @@ def setup(root):
 def gen_case(rng, tier):
     cls = rng.choice(['LRI', 'LRU'])
     max_size = rng.choice([1, 1, 2, 2, 3, 3, 4, 5]) if rng.random() < 0.95 else 128
-    on_miss = rng.choice(['none', 'none', 'none', 'pure', 'pure', 'reent_set', 'reent_get', 'reent_same'])
+    on_miss = rng.choice(['none', 'none', 'none', 'pure', 'pure', 'reent_set', 'reent_get', 'reent_same', 'raises'])
     pool = rng.choice(KEY_POOLS)
     keys = pool[:rng.randint(2, 6)]
     nops = rng.randint(1, 40) if rng.random() < 0.8 else rng.randint(1, 8)
     ops = gen_ops(rng, keys, nops, 'v')
     prefixes = sorted(set(rng.randint(1, nops) for _ in range(3)))
+    if rng.random() < 0.04:
+        # scale: a big cache filled by one bulk update, then the usual operations around its edges
+        max_size = rng.choice([16, 64, 128, 129, 256, 300])
+        base = list(range(1000, 1000 + max_size + 6))
+        fill = [[k, 'f%d' % k] for k in base[:max_size - rng.choice([0, 0, 1, 2])]]
+        edge = base[:3] + base[max_size - 3:max_size + 6]
+        ops = [['update', fill, rng.choice(['pairs', 'dict'])]] + gen_ops(rng, edge, rng.randint(1, 30), 'w')
+        prefixes = []
     return {'cls': cls, 'max_size': max_size, 'on_miss': on_miss, 'ops': ops, 'prefixes': prefixes}
 
 
@@ -102,7 +110,13 @@ def gen_ops(rng, keys, nops, tag, weights=None):
         elif r < 0.715:
             ops.append(['clear'])
         elif r < 0.77:
-            ops.append(['update', pairs(rng.randint(0, 4)), rng.choice(['dict', 'pairs', 'iter'])])
+            strkeys = [x for x in keys if isinstance(x, str)]
+            if strkeys and rng.random() < 0.4:
+                # positional mapping/pairs AND keyword arguments (string keys), possibly overlapping
+                ops.append(['update', pairs(rng.randint(0, 3)), rng.choice(['both', 'bothdict']),
+                            [[rng.choice(strkeys), val()] for _ in range(rng.randint(1, 2))]])
+            else:
+                ops.append(['update', pairs(rng.randint(0, 4)), rng.choice(['dict', 'pairs', 'iter'])])
         elif r < 0.80:
             ops.append(['ior', pairs(rng.randint(0, 4))])
         elif r < 0.84:
@@ -240,7 +254,7 @@ def run_case(case):
         # eviction order at the end (destructive) ...
         pr = L.probe(c, ms)
         want = M.order(state)
-        if pr['error'] or pr['over_capacity'] or pr['order'] != want or pr['left']:
+        if pr['error'] or pr['over_capacity'] or (pr['order'] is not None and pr['order'] != want) or pr['left']:
             out.fail('eviction-order-differs', len(case['ops']),
                      'final eviction order (oldest first) %r, reference %r; probe error=%r left=%r over_capacity=%r'
                      % (pr['order'], want, pr['error'], pr['left'], pr['over_capacity']),
